@@ -5,6 +5,7 @@ import random
 import re
 
 import vlib
+import c20gaps
 import c20gen
 import c20lib
 from runner import Property, ExecError
@@ -24,6 +25,9 @@ F19 = "C20-parser-panics-on-route-without-path"
 F20 = "C20-format-panics-on-doc-without-handler"
 F21 = "C20-deleted-statement-after-import-changes-blank-lines"
 F22 = "C20-comment-with-line-break-inside-one-line-construct"
+F23 = "C20-comment-dropped"
+F24 = "C20-whitespace-inside-string-literal-rewritten"
+F25 = "C20-blanks-inside-comment-rewritten-per-pass"
 
 STOP_KINDS = {"(", "AT_DOC", "AT_HANDLER", ";", "}"}
 
@@ -59,6 +63,16 @@ def r_tok(t):
 
 def r_toks(ts):
     return lst([r_tok(t) for t in ts])
+
+
+def clean(s):
+    """comment texts: control characters other than line break / tab / CR cannot be written in a
+    Gallina string literal here; they are dropped on both sides of the comparison"""
+    return "".join(ch for ch in s if ord(ch) >= 32 or ch in "\n\t\r")
+
+
+def r_cmts(cs):
+    return lst(["(%d%%nat, %s)" % (c[0] + 1, q(clean(c[2]))) for c in cs])
 
 
 def r_lit(v):
@@ -313,6 +327,93 @@ def only_leading_ws_differs(a, b):
     return len(la) == len(lb) and all(x.lstrip(" \t") == y.lstrip(" \t") for x, y in zip(la, lb))
 
 
+def failure_modes(o):
+    """how does a valid program fail the property, as far as the executor's observation shows?
+    (Python twin used only to decide whether a failure is a registered known one)"""
+    ms = set()
+    if o["fout"] != "ok":
+        return {"ferr"}
+    if o["fast"] is None:
+        ms.add("noparse")
+    elif c20_norm(o["ast"]) != o["fast"]:
+        ms.add("meaning")
+    elif [(t[0], t[1]) for t in o["ftoks"]] != kept_tokens(o):
+        ms.add("meaning")
+    if not o["idem"]:
+        ms.add("idem")
+    return ms
+
+
+def kept_tokens(o):
+    """(kind, text) of the source tokens that survive formatting when nothing but ';' is deleted;
+    the formatted tokens themselves when the formatter deletes an empty construct (then the
+    comparison is left to Coq)"""
+    if c20_norm(o["ast"]) != o["ast"]:
+        return [(t[0], t[1]) for t in o["ftoks"]]
+    return [(t[0], t[1]) for t in o["toks"] if t[0] != ";"]
+
+
+def nws(s):
+    """Python twin of Check.nws: white space inside a comment is layout"""
+    lines = clean(s).split("\n")
+    return "\n".join(" ".join(x for x in re.split(r"[ \t\r]+", ln) if x) for ln in lines)
+
+
+def lost_comments(o):
+    """indexes of the source comments missing from the formatted text (greedy, in order)"""
+    out = [nws(c[2]) for c in o["fcmts"]]
+    j = 0
+    lost = []
+    for i, c in enumerate(o["cmts"]):
+        if j < len(out) and out[j] == nws(c[2]):
+            j += 1
+        else:
+            lost.append(i)
+    return lost
+
+
+STR_WS = re.compile(r"\t|[ \t]+\n|\n[ \t]+")
+
+
+def string_ws_edits(toks):
+    """F24 shape: {token index: repaired text} for STRING/RAW_STRING tokens holding a tab or blanks
+    next to a line break"""
+    res = {}
+    for i, t in enumerate(toks):
+        if t[0] in ("STRING", "RAW_STRING") and STR_WS.search(t[1]):
+            x = re.sub(r"[ \t]*\n[ \t]*", "\n", t[1]).replace("\t", " ")
+            res[i] = x
+    return res
+
+
+def apply_string_edits(src, toks, edits):
+    """replace the string tokens edits[i] in src (located in order of appearance)"""
+    cur = 0
+    spans = []
+    for i, t in enumerate(toks):
+        if t[0] not in ("STRING", "RAW_STRING"):
+            continue
+        off = src.find(t[1], cur)
+        if off < 0:
+            return None
+        if i in edits:
+            spans.append((off, off + len(t[1]), edits[i]))
+        cur = off + len(t[1])
+    for a, e, x in sorted(spans, reverse=True):
+        src = src[:a] + x + src[e:]
+    return src
+
+
+CMT_WS = re.compile(r"\t|[ \t]{2,}(\r?\n|$)")      # F25 shape: a tab, or 2+ blanks at the end of a line
+
+
+def only_blank_runs_differ(a, b):
+    """do the texts differ only in the length of runs of blanks/tabs inside their lines?"""
+    la, lb = a.split("\n"), b.split("\n")
+    return len(la) == len(lb) and all(re.sub(r"[ \t]+", " ", x).strip() == re.sub(r"[ \t]+", " ", y).strip()
+                                      for x, y in zip(la, lb))
+
+
 def mutant_shape(m):
     """shapes of invalid sources known to crash the pinned parser/formatter (F19, F20)"""
     toks = [x for x in c20gen.TOKEN_RE.findall(m) if not x.startswith("//") and not x.startswith("/*")]
@@ -343,27 +444,40 @@ class C20(Property):
     thorough_cases = 5000
     level = "proof"
     design_ref = "DESIGN.md §6/C20"
-    technique = ("Rocq proof of the .api grammar model (parse∘print = id, hence idempotence and meaning preservation of "
-                 "print∘norm∘parse) + translation validation of the Go scanner/parser/formatter against it on generated programs")
-    level_text = ("Unbounded Rocq theorems about a Gallina model of the .api language (tokens, AST, recursive-descent parser "
-                  "following parser.go, canonical printer, the formatter's normalisation of empty constructs): "
+    technique = ("Rocq proof of the .api language model (scanner: scan∘render = id; grammar: parse∘print = id, hence "
+                 "idempotence and meaning preservation of print∘norm∘parse) + translation validation of the Go "
+                 "scanner/parser/formatter against it on generated programs, character by character and token by token")
+    level_text = ("Unbounded Rocq theorems about a Gallina model of the .api language: a scanner following scanner.go "
+                  "(characters -> tokens, with its line counter and its quirks) that inverts the rendering of every stream of "
+                  "lexically well-formed tokens; tokens, AST, a recursive-descent parser following parser.go, the canonical "
+                  "printer with the formatter's line structure, the formatter's normalisation of empty constructs: "
                   "parse (print a) = Some a for every well-formed AST, hence the model formatter is idempotent and preserves "
-                  "meaning. The 7000 lines of Go are NOT proved: they are validated against the model per generated program "
-                  "(Go scanner tokens -> model parser = Go parser's AST; tokens of format.Source(p) = print (norm AST); "
-                  "byte idempotence; no panic/hang on mutated invalid sources).")
-    level_note = ("partial: proof of the grammar model + translation validation of the Go formatter. Comments are outside "
-                  "the model; comment positions / constructs where the pinned formatter misbehaves (F10 and the C20-* findings "
-                  "of notes/C20.md) are generated only when a probe shows the tree no longer has the defect or the finding id "
-                  "is a known/fixed line of KNOWN_FINDINGS.jsonl.")
+                  "meaning, also from characters (text_roundtrip). The 7000 lines of Go are NOT proved: they are validated "
+                  "against the model per generated program (model scanner = Go scanner on the source and on the formatted text; "
+                  "Go scanner tokens -> model parser = Go parser's AST; tokens AND line structure of format.Source(p) = print "
+                  "(norm AST); comments kept in order; byte idempotence; format.File = format.Source; no panic/hang on mutated "
+                  "invalid sources). checked_case_satisfies_property ties the boolean check to the model statement.")
+    level_note = ("partial: proof of the language model + translation validation of the Go code. Comments are outside the "
+                  "grammar model (judged as an ordered list of texts with positions). Known findings are suppressed only for "
+                  "comments whose grammar position and form is a key of the committed table tools/props/c20_known_gaps.json "
+                  "with the failure mode observed; no probe of the tree under test decides what is generated or suppressed.")
     rule = ("programs: 1..9 statements of every kind (syntax/info/import single+group/type single+group with nested structs, "
-            "arrays, slices, maps, pointers, any, interface{}, embedded fields, tags/@server/service with @doc/@handler/routes), "
-            "comments (line/block/doc, own line, end of line, inline block) and odd spacing; 4 mutants each; non-trivial = the Go "
-            "parser accepted it, it has >= 12 tokens and the formatter changed its text; distinct = hash of the source")
+            "arrays, slices, maps (also as map keys), pointers, any, interface{}, embedded fields, tags/@server with every value "
+            "shape and every duration unit/service blocks (often several with one name) with @doc/@handler/routes with and "
+            "without request/response/empty bodies), comments (line/block/doc, own line, end of line, inline, inside route "
+            "paths, @server values and name-api), odd spacing, DOS line ends, form feeds, very long lines, unicode, files "
+            "holding only comments; 4 mutants each (token edits, truncation, garbage, BOM/NUL, comment inside a path); "
+            "non-trivial = the Go parser accepted it, it has >= 12 tokens and the formatter changed its text; distinct = hash "
+            "of the source")
     trusted_base = [
-        "model theories/C20/Model.v is hand-written from parser.go/scanner.go; tie = per-program translation validation "
-        "(harness/goctlh/cmd/c20): Go scanner tokens -> model parse = Go parser AST dump; Go formatter tokens = model print",
+        "models theories/C20/{Scanner,Model}.v are hand-written from scanner.go/parser.go; tie = per-program translation "
+        "validation (harness/goctlh/cmd/c20): model scanner vs Go scanner on every source and formatted text; Go scanner "
+        "tokens -> model parse = Go parser AST dump; Go formatter tokens and line bits = model print",
         "the executor's canonical AST dump (dumpStmt/dumpDT) and tools/props/c20.py's rendering of it as Gallina terms",
-        "comments, columns and alignment are not modelled; the scanner is used as the tokeniser of both sides",
+        "comments are not part of the grammar model: compared as texts (white space normalised) with their token positions; "
+        "columns/alignment are not modelled",
+        "tools/props/c20_known_gaps.json (committed table of the comment positions the pinned formatter mishandles) and "
+        "tools/c20gaps.py (gap keys) decide which failures are reported as KNOWN-FINDING",
         "stand-in modules harness/stubs/{color,structtag} replace two third-party imports the formatter never calls",
     ]
     assumptions = ["a source is 'syntactically valid' iff goctl's own parser accepts it",
@@ -374,44 +488,22 @@ class C20(Property):
         self.fixed = {}
         self._valid = {}
 
-    # ---- build + probes ---------------------------------------------------------
+    # ---- build ------------------------------------------------------------------
     def prepare(self, ctx):
         ok, res = c20lib.build()
         if not ok:
             return False, res
         self.bin = res
-        # probes: which of the known defects does the tree under test still have?
-        probes = {
-            F18: 'service s {\n\t@doc "50% off"\n\t@handler h\n\tget /x\n}\n',
-            F16: 'service s { // c\n}\n',
-            F15: 'service s {\n\t@handler a\n\tget /a\n\t@doc ""\n\t@handler h\n\tget /x\n}\n',
-            F17: 'type T {}\n/* a\n  b */\n',
-            F10: 'service s {\n\t@handler h\n\tget /x // c\n\treturns (T)\n}\n',
-            F21: 'import "a.api"\ntype (\n)\n',
-        }
-        crash = {F19: "service s {\n\t@handler h\n\tget (Req)\n}\n", F20: 'service s {\n\t@doc "a"\n}\n}\n'}
-        rc, out, res = c20lib.run(self.bin, [{"src": s} for s in probes.values()] +
-                                  [{"src": "type T {}\n", "muts": list(crash.values())}])
-        if rc != 0 or len(res) != len(probes) + 1:
-            return False, "probe run failed: %s" % out[-1500:]
-        self.fixed = {}
-        for (fid, _), o in zip(probes.items(), res):
-            self.fixed[fid] = (o["pout"] == "ok" and o["fout"] == "ok" and o["idem"] and c20_norm(o["ast"]) == o["fast"])
-        for (fid, _), mo in zip(crash.items(), res[-1]["muts"]):
-            self.fixed[fid] = mo in ("ok", "err")
-        ctx.notes.append("known-defect probes (True = not present in this tree): %s" % json.dumps(self.fixed, sort_keys=True))
         return True, ""
 
     def _on(self, fid):
-        """generate the shape of finding fid? yes when the tree no longer has the defect, when the
-        finding is registered as known (then it is reported as KNOWN-FINDING) or as fixed, or
+        """generate the shape of finding fid?  Decided by the committed KNOWN_FINDINGS.jsonl only
+        (never by probing the tree under test: a changed tree must not be able to switch a shape
+        off): yes when the finding is registered as known (then it is reported as KNOWN-FINDING,
+        narrowly, see known()) or as fixed (then re-introducing the defect is a VIOLATION), or
         when forced with C20_FORCE=id,id (self-test)."""
-        if self.fixed.get(fid, False) or fid in vlib.known_ids(self.id):
-            return True
-        # a `fixed` entry keeps the shape in the stream for good: re-introducing the defect is
-        # then a VIOLATION, not a silently skipped shape
         for e in vlib.load_known():
-            if e.get("property") == self.id and e.get("kind") == "fixed" and e.get("id") == fid:
+            if e.get("property") == self.id and e.get("kind") in ("known", "fixed") and e.get("id") == fid:
                 return True
         return fid in os.environ.get("C20_FORCE", "").split(",")
 
@@ -431,10 +523,12 @@ class C20(Property):
 
     def gen(self, rng, n, tier):
         cases = []
-        on = {f: self._on(f) for f in (F10, F15, F16, F17, F18, F19, F20, F21)}
+        on = {f: self._on(f) for f in (F10, F15, F16, F17, F18, F19, F20, F21, F24, F25)}
         for i in range(n):
             opts = {"percent": on[F18] and rng.random() < 0.3,
-                    "f10": on[F10] and rng.random() < 0.2,
+                    "f10": on[F10],
+                    "strws": on[F24] and rng.random() < 0.3,
+                    "cmt_tab": on[F25] and rng.random() < 0.3,
                     "emptydoc": on[F15],
                     "svc_comment": on[F16],
                     "multi_indent": on[F17],
@@ -474,7 +568,7 @@ class C20(Property):
             # a shrink candidate of a valid failing program that is no longer valid: not a
             # smaller instance of the same failure (it would drift to the parser-crash findings)
             obs["skipped"] = "shrink candidate no longer valid"
-            return "mkCase true [] (Some []) OOk OOk [] (Some []) true []"
+            return "mkCase None None true [] [] (Some []) OOk OOk [] [] (Some []) true true false []"
         try:
             ast = r_api(obs["ast"])
         except Unrenderable as e:
@@ -491,130 +585,142 @@ class C20(Property):
         except Unrenderable as e:
             obs["unrenderable_t"] = str(e)
             toks, ftoks = "[]", "[]"
-        return "mkCase %s %s %s %s %s %s %s %s %s" % (
-            b(not obs.get("serr") and "unrenderable_t" not in obs), toks, ast, outc(obs["pout"]), outc(obs["fout"]),
-            ftoks, fast, b(obs["idem"]), lst([outc(m) for m in obs["muts"]]))
+        def src_term(text):
+            try:
+                return "(Some %s)" % q(text)
+            except Unrenderable:
+                return "None"
+        cm_ok = all(clean(c[2]) == c[2] for c in obs["cmts"] + obs["fcmts"])
+        return "mkCase %s %s %s %s %s %s %s %s %s %s %s %s %s %s %s" % (
+            src_term(case["src"]) if cm_ok and "unrenderable_t" not in obs else "None",
+            src_term(obs["fmt1"]) if cm_ok and "unrenderable_t" not in obs else "None",
+            b(not obs.get("serr") and "unrenderable_t" not in obs), toks, r_cmts(obs["cmts"]), ast, outc(obs["pout"]),
+            outc(obs["fout"]), ftoks, r_cmts(obs["fcmts"]), fast, b(obs["idem"]), b(obs.get("file") == "same"),
+            b(self._on(F23)), lst([outc(m) for m in obs["muts"]]))
 
     # ---- classification ---------------------------------------------------------
     def known(self, case, obs):
+        """Id of the registered known finding that explains this failing case, or None.
+
+        Nothing here looks at how the case was generated, and nothing is learnt from the tree under
+        test: a comment can only be blamed when its grammar position and form (c20gaps.comment_keys,
+        computed from the Go scanner's token stream) is a key of the COMMITTED table
+        tools/props/c20_known_gaps.json with exactly the failure mode observed; the program with
+        exactly the blamed comments removed/repaired must then satisfy the whole property
+        (re-executed).  A failure the Python side cannot classify (token/layout mismatch against the
+        model printer, format.File, a crash of a mutant) is never suppressed."""
         kids = vlib.known_ids(self.id)
-        crashes = [(m, o) for m, o in zip(case.get("muts", []), obs["muts"]) if o not in ("ok", "err", "skipped-empty")]
-        ids = set()
-        for m, o in crashes:
-            if "index out of range" in o and "parsePathExpr" in o:
-                ids.add(F19)
-            elif "nil pointer" in o and ("ast.(*RouteStmt)" in o or "ast.(*AtHandlerStmt)" in o or "ast.(*ServiceItemStmt)" in o):
-                ids.add(F20)
-            else:
-                return None
-        main_ok = self._main_ok(obs)
-        if not main_ok:
-            fids = self._explain_main(case, obs, kids)
-            if not fids:
-                return None
-            ids.update(fids)
-        if not ids or not all(i in kids for i in ids):
+        if any(o not in ("ok", "err", "skipped-empty") for o in obs["muts"]):
             return None
-        return sorted(ids)[0]
+        if obs.get("file") != "same" or obs["pout"] != "ok" or obs.get("serr") or obs["fout"] != "ok":
+            return None
+        fids = self._explain_main(case, obs, kids)
+        if not fids or not all(i in kids for i in fids):
+            return None
+        return sorted(fids)[0]
 
     @staticmethod
     def _main_ok(obs):
         if obs["pout"] != "ok":
             return obs["pout"] == "err" and obs["fout"] == "err"
-        return obs["fout"] == "ok" and obs["idem"] and c20_norm(obs["ast"]) == obs["fast"]
+        return obs["fout"] == "ok" and obs["idem"] and c20_norm(obs["ast"]) == obs["fast"] \
+            and obs.get("file", "same") == "same"
 
     def _run1(self, src):
         rc, out, res = c20lib.run(self.bin, [{"src": src}])
         return res[0] if rc == 0 and len(res) == 1 else None
 
-    def _f10_idxs(self, case, obs):
-        return route_comment_positions(obs["toks"], obs["cmts"])
-
-    def _inline_idxs(self, case, obs):
-        """comments that carry a line break (a line comment, or a comment with a line break
-        before/after it) between two tokens that the formatter prints on one line; which gaps
-        are "one line" is read off the formatted comment-free program"""
-        toks, cmts = obs["toks"], obs["cmts"]
-        if not cmts:
-            return []
-        src0 = delete_comments(case["src"], cmts, range(len(cmts)))
-        o0 = self._run1(src0) if src0 is not None else None
-        if o0 is None or o0["pout"] != "ok" or not self._main_ok(o0) or o0["ast"] != obs["ast"]:
-            return []
-        ft = o0["ftoks"]
-        # align the source tokens with the formatted ones (the formatter only deletes tokens:
-        # empty constructs and ';')
-        # (left-to-right: a formatted token is matched with the first equal source token)
-        fidx = {}
-        j = 0
-        for i, t in enumerate(toks):
-            if j < len(ft) and t[0] == ft[j][0] and t[1] == ft[j][1]:
-                fidx[i] = j
-                j += 1
-        if j != len(ft):
-            return []
-        # positions that have their own finding ids (repaired in go-zero) are not part of this
-        # family: a regression there must stay a violation
-        own = set(route_comment_positions(toks, cmts)) | set(empty_service_comment_positions(toks, cmts))
-        idxs = []
-        for ci, c in enumerate(cmts):
-            nxt = c[0] + 1
-            if ci in own or c[0] < 0 or nxt >= len(toks):
-                continue
-            k = nxt              # tokens the formatter deletes (empty "()" ...) are stepped over
-            while k < len(toks) and k not in fidx:
-                k += 1
-            if k >= len(toks) or ft[fidx[k]][2] == 1:
-                continue         # the formatter breaks the line here anyway: conventional position
-            if (c[1] == "COMMENT") or toks[nxt][2] == 1 or c[3] == 0 or "\n" in c[2]:
-                idxs.append(ci)
-        return idxs
-
     def _explain_main(self, case, obs, kids):
-        """Which registered known finding(s) explain a failing valid program?  Each family has a
-        token-level shape (which comment tokens, where) and a repair of exactly those comments;
-        the program is explained iff it has the shape(s) and the same program with exactly those
-        comments repaired satisfies the whole property (re-executed on the implementation).
-          F10  comment directly after the last token of a route path, before '(' / 'returns'
-               (only idempotence may fail)                                   -> comment removed
-          F17  block comment with a continuation line starting with blanks/tabs (only
-               idempotence may fail, and the two passes differ only in leading white space)
-                                                            -> leading white space removed
-          F22  comment carrying a line break between two tokens the formatter prints on one
-               line                                                          -> comment removed
+        """Which registered known finding(s) explain a failing valid program?
+          F17  block comment with a continuation line starting with blanks/tabs: only idempotence
+               may fail, the two passes differ only in leading white space  -> white space removed
+          F22  comment in a gap of the committed table with mode idem/noparse/meaning; the modes
+               observed on the program must all be recorded for the blamed gaps -> comment removed
+          F23  comment missing from the formatted text: its gap must be in the table with mode
+               "lost"                                                         -> comment removed
+          F25  comment containing a tab or ending a line with 2+ blanks: only idempotence may fail,
+               the two passes differ only in the width of runs of blanks
+                                                   -> tabs replaced by blanks, trailing blanks removed
+          F24  a STRING/RAW_STRING token containing a tab, or blanks next to a line break: its text
+               is rewritten by the layout pass (tokens differ only in such tokens, only in white
+               space)                                                   -> white space normalised
         Returns the sorted list of ids needed, or None."""
-        if obs["pout"] != "ok" or obs.get("serr") or not obs["cmts"]:
-            return None
         cmts = obs["cmts"]
-        meaning_ok = obs["fout"] == "ok" and c20_norm(obs["ast"]) == obs["fast"]
+        ms = failure_modes(obs)
+        lost = lost_comments(obs)
+        strict_lost = lost if self._on(F23) else []
+        keys = c20gaps.comment_keys(obs["toks"], cmts)
         fam = {}
-        if F10 in kids and meaning_ok:
-            ix = self._f10_idxs(case, obs)
-            if ix:
-                fam[F10] = {i: " " for i in ix}
-        if F17 in kids and meaning_ok:
+        need = set(ms)
+        if F17 in kids and ms <= {"idem"}:
             ix = multiline_indented(cmts)
-            if ix:
+            if ix and (not ms or only_leading_ws_differs(obs["fmt1"], obs["fmt2"])):
                 fam[F17] = {i: CONT_WS.sub("\n", cmts[i][2]) for i in ix}
-        if F22 in kids:
-            ix = self._inline_idxs(case, obs)
+        if F25 in kids and ms == {"idem"}:
+            ix = [i for i, c in enumerate(cmts) if CMT_WS.search(c[2])]
+            if ix and only_blank_runs_differ(obs["fmt1"], obs["fmt2"]):
+                fam[F25] = {i: re.sub(r"[ \t]+(\r?\n|$)", r"\1", re.sub(r"[ \t]*\t[ \t]*", " ", cmts[i][2])) for i in ix}
+        if F22 in kids and ms:
+            ix = [i for i, k in enumerate(keys) if c20gaps.modes(k) & {"idem", "noparse", "meaning"}]
             if ix:
                 fam[F22] = {i: " " for i in ix}
+        if F23 in kids and strict_lost:
+            if not all("lost" in c20gaps.modes(keys[i]) for i in strict_lost):
+                return None
+            fam[F23] = {i: " " for i in strict_lost}
+        elif strict_lost:
+            return None
+        if F24 in kids and "meaning" in ms:
+            ed = string_ws_edits(obs["toks"])
+            if ed:
+                fam[F24] = ed
         if not fam:
             return None
-        order = [[f] for f in sorted(fam)] + ([sorted(fam)] if len(fam) > 1 else [])
-        for combo in order:
-            if combo == [F17] and not only_leading_ws_differs(obs["fmt1"], obs["fmt2"]):
+        names = sorted(fam)
+        combos = [[f] for f in names] + [[a, b2] for i, a in enumerate(names) for b2 in names[i + 1:]] + \
+                 ([names] if len(names) > 2 else [])
+        for combo in combos:
+            # the failure modes observed must be recorded for what is blamed
+            allowed = set()
+            if F17 in combo or F25 in combo:
+                allowed.add("idem")
+            if F22 in combo:
+                for i in fam[F22]:
+                    allowed |= c20gaps.modes(keys[i]) & {"idem", "noparse", "meaning"}
+            if F24 in combo:
+                allowed |= {"meaning", "idem"}
+            if not ms <= allowed:
                 continue
+            if strict_lost and F23 not in combo and not all(i in fam.get(F22, {}) for i in strict_lost if F22 in combo):
+                continue
+            src2 = case["src"]
+            if F24 in combo:
+                src2 = apply_string_edits(src2, obs["toks"], fam[F24])
+                if src2 is None:
+                    continue
+                o1 = self._run1(src2)
+                if o1 is None or o1["pout"] != "ok" or [t[0] for t in o1["toks"]] != [t[0] for t in obs["toks"]]:
+                    continue
+                cm = o1["cmts"]
+            else:
+                cm = cmts
             edits = {}
             for f in combo:
+                if f == F24:
+                    continue
                 for i, t in fam[f].items():
                     if t == " " or i not in edits:      # removing a comment wins over repairing it
                         edits[i] = t
-            src2 = edit_comments(case["src"], cmts, edits)
+            if edits:
+                src2 = edit_comments(src2, cm, edits)
             o2 = self._run1(src2) if src2 is not None else None
-            if o2 is not None and o2["ast"] == obs["ast"] and self._main_ok(o2):
-                return combo
+            if o2 is None or not self._main_ok(o2):
+                continue
+            if F24 not in combo and o2["ast"] != obs["ast"]:
+                continue
+            if self._on(F23) and lost_comments(o2):
+                continue
+            return combo
         return None
 
     # ---- evidence ---------------------------------------------------------------
